@@ -11,6 +11,8 @@ type Model struct {
 	Objs map[string]*Rec
 	// UniqueP: the custom schema of the configuration declares P (otherwise unindexed) and S (plain string, no case constraint) unique
 	UniqueP bool
+	// UniqueV: the custom schema declares this one field unique: "U64" (unsigned), "F64" (float) or "T" (time)
+	UniqueV string
 }
 
 func NewModel() *Model { return &Model{Objs: map[string]*Rec{}} }
@@ -18,6 +20,7 @@ func NewModel() *Model { return &Model{Objs: map[string]*Rec{}} }
 func (m *Model) Clone() *Model {
 	c := NewModel()
 	c.UniqueP = m.UniqueP
+	c.UniqueV = m.UniqueV
 	for u, r := range m.Objs {
 		c.Objs[u] = cloneRec(r)
 	}
@@ -40,7 +43,7 @@ func (m *Model) conflict(uuid string, r *Rec) bool {
 		if u == uuid {
 			continue
 		}
-		if o.K == r.K || o.N == r.N || (m.UniqueP && (o.P == r.P || o.S == r.S)) {
+		if m.clash(o, r) {
 			return true
 		}
 	}
@@ -49,7 +52,8 @@ func (m *Model) conflict(uuid string, r *Rec) bool {
 
 // clash tells whether two canonical records may not be stored together.
 func (m *Model) clash(a, b *Rec) bool {
-	return a.K == b.K || a.N == b.N || (m.UniqueP && (a.P == b.P || a.S == b.S))
+	return a.K == b.K || a.N == b.N || (m.UniqueP && (a.P == b.P || a.S == b.S)) ||
+		(m.UniqueV == "U64" && a.U64 == b.U64) || (m.UniqueV == "F64" && a.F64 == b.F64) || (m.UniqueV == "T" && a.T.UnixNano() == b.T.UnixNano())
 }
 
 // expectSingle returns the expected outcome class of InsertOrUpdate(r) where r
